@@ -624,7 +624,7 @@ impl ConsumerGroupManager {
 //@@   params drop "&self" add "&mut self"
 //@@   rewrite RT "let mut groups = self.groups.write().unwrap();" "let groups = &mut self.groups;"
 //@@   rewrite RT "Arc::new(ConsumerGroup::new(name.clone(), start_id))" "ConsumerGroup::new(name.clone(), start_id)"
-//@@   rewrite RT "\"BUSYGROUP Consumer Group name already exists\".to_string()" "verif_to_string(\"BUSYGROUP Consumer Group name already exists\")"
+//@@   rewrite? RT "\"BUSYGROUP Consumer Group name already exists\".to_string()" "verif_to_string(\"BUSYGROUP Consumer Group name already exists\")"
     fn create_group(&mut self, name: String, start_id: StreamId) -> (r: Result<(), String>)
         ensures
             // C16 (XGROUP CREATE): an existing name is refused and nothing changes; otherwise exactly one group is added — empty, with
